@@ -17,6 +17,9 @@ type Unit struct {
 	Weight    int // rough relative cost, for ordering
 	MaxExecs  int
 	NoConfirm bool
+	// AllVisible: every hooked operation is a scheduling point (no ownership / read-shared
+	// reduction); affordable for short bodies such as Setup
+	AllVisible bool
 	Shards    int // >1: the DFS tree is split at its first level over this many worker processes
 	Env       bool
 	Check     func(x *Exec) []Violation
@@ -79,7 +82,7 @@ func RunUnit(u *Unit, shard, nshards int, deadline time.Time, boundOverride int)
 		bound = boundOverride
 	}
 	e := &Explorer{Name: u.Name, Bound: bound, Prune: u.Prune && !u.Sc.UsesFS && os.Getenv("VERIF_NOPRUNE") == "", Shard: shard, NShards: nshards,
-		Deadline: deadline, Run: u.Sc.Runner(dir), Check: u.Check, Goal: u.Goal, EnvChoices: u.Env, NoConfirm: u.NoConfirm}
+		Deadline: deadline, Run: u.Sc.Runner(dir), Check: u.Check, Goal: u.Goal, EnvChoices: u.Env, NoConfirm: u.NoConfirm, AllVisible: u.AllVisible}
 	e.Explore()
 	if u.Filter != nil {
 		e.Violations = u.Filter(e.Violations)
